@@ -334,6 +334,30 @@ impl Assembler for IntervalAssembler {
     }
     fn build_mul(&mut self, out_reg: u8, lhs_reg: u8, rhs_reg: u8) {
         dynasm!(self.0.ops
+            // 0 * infinity may also happen inside the ranges: multiply the
+            // value of each operand that is closest to zero (0 if the range
+            // contains it) by both bounds of the other operand; a NaN there
+            // means that the result is the NaN interval
+            ; vpxor xmm3, xmm3, xmm3
+            ; vpshufd xmm1, Rx(reg(lhs_reg)), 0b00000001_i8
+            ; vminss xmm1, xmm1, xmm3
+            ; vmaxss xmm1, xmm1, Rx(reg(lhs_reg))
+            ; vpshufd xmm1, xmm1, 0
+            ; vpshufd xmm2, Rx(reg(rhs_reg)), 0b01000100_i8
+            ; vmulps xmm1, xmm1, xmm2
+            ; vcmpunordps xmm1, xmm1, xmm1
+            ; vptest xmm1, xmm1
+            ; jnz >N
+            ; vpshufd xmm1, Rx(reg(rhs_reg)), 0b00000001_i8
+            ; vminss xmm1, xmm1, xmm3
+            ; vmaxss xmm1, xmm1, Rx(reg(rhs_reg))
+            ; vpshufd xmm1, xmm1, 0
+            ; vpshufd xmm2, Rx(reg(lhs_reg)), 0b01000100_i8
+            ; vmulps xmm1, xmm1, xmm2
+            ; vcmpunordps xmm1, xmm1, xmm1
+            ; vptest xmm1, xmm1
+            ; jnz >N
+
             ; vpshufd xmm2, Rx(reg(lhs_reg)), 0b01000001_i8
             ; vpshufd xmm1, Rx(reg(rhs_reg)), 0b00010001_i8
             ; vmulps xmm2, xmm2, xmm1 // xmm2 contains all 4 results
@@ -343,6 +367,7 @@ impl Assembler for IntervalAssembler {
             ; vcmpunordps xmm1, xmm2, xmm2
             ; vptest xmm1, xmm1
             ; jz >M
+            ; N:
             ; vpcmpeqw Rx(reg(out_reg)), Rx(reg(out_reg)), Rx(reg(out_reg))
             ; vpslld Rx(reg(out_reg)), Rx(reg(out_reg)), 23
             ; vpsrld Rx(reg(out_reg)), Rx(reg(out_reg)), 1
